@@ -109,6 +109,9 @@ func (cs condSet) matches(res int, err error) (matched bool, errorsChecked bool)
 		case "E":
 			errorsChecked = true
 			matched = matched || errors.Is(err, errE1)
+		case "Es":
+			errorsChecked = true
+			matched = matched || errors.Is(err, errE1) || errors.Is(err, errE2)
 		case "EE", "EE2":
 			errorsChecked = true
 			matched = matched || errors.Is(err, errE1) || errors.Is(err, errE2)
@@ -168,6 +171,11 @@ func applyHandle[S any](b failureBuilder[S], cs condSet) {
 			b.HandleResult(7)
 		case "I":
 			b.HandleIf(c12Pred)
+		case "Es":
+			// registered from a caller-owned slice that is reused afterwards: the conditions are fixed at registration
+			errs := []error{errE1, errE2}
+			b.HandleErrors(errs...)
+			errs[0], errs[1] = errE3, errE3
 		case "EE":
 			b.HandleErrors(errE1, errE2)
 		case "EE2":
@@ -221,7 +229,7 @@ func c12CondSets() []condSet {
 	}
 	perm(nil, base)
 	// duplicates and both type forms together
-	for _, d := range [][]string{{"R", "E", "R"}, {"E", "E"}, {"Tv", "Tp"}, {"Tp", "R", "Tv"}, {"I", "R", "I"}, {"R", "R"}, {"EE"}, {"EE2"}, {"TT"}, {"TT2"}, {"TT", "R"}, {"R", "EE2"}, {"TT2", "EE"}, {"I", "TT"}} {
+	for _, d := range [][]string{{"R", "E", "R"}, {"E", "E"}, {"Tv", "Tp"}, {"Tp", "R", "Tv"}, {"I", "R", "I"}, {"R", "R"}, {"EE"}, {"EE2"}, {"TT"}, {"TT2"}, {"TT", "R"}, {"R", "EE2"}, {"TT2", "EE"}, {"I", "TT"}, {"Es"}, {"Es", "R"}, {"Tv", "Es"}} {
 		add(d)
 	}
 	return sets
@@ -383,6 +391,10 @@ func c12Abort(rep *vk.Report, idx int, cs condSet, o outcome) {
 			rpb.AbortOnResult(7)
 		case "I":
 			rpb.AbortIf(c12Pred)
+		case "Es":
+			errs := []error{errE1, errE2}
+			rpb.AbortOnErrors(errs...)
+			errs[0], errs[1] = errE3, errE3
 		case "EE":
 			rpb.AbortOnErrors(errE1, errE2)
 		case "EE2":
@@ -432,6 +444,10 @@ func c12Hedge(rep *vk.Report, idx int, cs condSet, o outcome) {
 				hb.CancelOnResult(7)
 			case "I":
 				hb.CancelIf(c12Pred)
+			case "Es":
+				errs := []error{errE1, errE2}
+				hb.CancelOnErrors(errs...)
+				errs[0], errs[1] = errE3, errE3
 			case "EE":
 				hb.CancelOnErrors(errE1, errE2)
 			case "EE2":
